@@ -511,7 +511,11 @@ void _ZNK4bloc5Value8toStringB5cxx11Ev(void* ret, void* self) { vx_str_init(S(re
 void _ZNK4bloc5Value8typeNameB5cxx11Ev(void* ret, void* self) { vx_str_init(S(ret), "", 0); }
 void _ZNK4bloc9TupleDecl4Decl9tupleNameB5cxx11Ev(void* ret, void* self) { vx_str_init(S(ret), "", 0); }
 /* rendering of decimals (%.16g; decided separately by the C12 number query): when cut, a fixed token per kind */
-void _ZN4bloc5Value15readableNumericB5cxx11ERd(void* ret, void* d) { vx_str_init(S(ret), "#num", 4); }
+/* a harness may choose the rendering itself (vx_set_numtext): an arbitrary text of the %.16g output grammar stands for "some decimal" */
+static char vx_numtext[16]; static long vx_numtext_len = -1;
+void vx_set_numtext(void* s, long n) { __CPROVER_assert(n >= 0 && n <= 15, "model bound: number text"); for (long i = 0; i < 15; i++) if (i < n) vx_numtext[i] = ((char*)s)[i]; vx_numtext_len = n; }
+double vx_num_of_text(void* s) { return nondet_double(); }
+void _ZN4bloc5Value15readableNumericB5cxx11ERd(void* ret, void* d) { if (vx_numtext_len >= 0) vx_str_init(S(ret), vx_numtext, (uint64_t)vx_numtext_len); else vx_str_init(S(ret), "#num", 4); }
 void _ZN4bloc5Value15readableIntegerB5cxx11ERl(void* ret, void* l) { vx_str_init(S(ret), "#int", 4); }
 void _ZN4bloc5Value17readableImaginaryB5cxx11ERNS_9ImaginaryE(void* ret, void* i) { vx_str_init(S(ret), "(#img)", 6); }
 
